@@ -24,9 +24,10 @@ RULE = ("Generated stretched grid (6..10 x 4..8 x 4..8), gridding='same', "
 ASSUMPTIONS = [
     "solver tolerance 1e-11 for forward and adjoint solves; cases where any "
     "solve does not converge are inconclusive",
-    "threshold: |FD - g.d| <= 1e-6 ||g|| ||d|| at the best step and a "
-    ">=30x decrease from step 1e-2 to 1e-3 when above the floor (measured "
-    "on the pinned tree: ~1e-9 at the best step)",
+    "threshold: |FD - g.d| <= 1e-5 ||g|| ||d|| at the best step and a "
+    ">=30x decrease from step 1e-2 to 1e-3 when above the floor (measured: "
+    "typically 1e-9, worst 7e-7 at the best step over 750 thorough cases; "
+    "the smallest effect of a mutant/seeded change was 2.5e-4)",
 ]
 SHARDS = {'quick': 1, 'thorough': 16}
 STEPS = [1e-2, 1e-3, 1e-4]
@@ -116,7 +117,7 @@ def _case_gradient(spec, rec):
     best = min(errs)
     srck = '+'.join(sorted(set(spec['problem']['src'])))
     sig = f"{p.mapping}:{p.case}"
-    if best > 1e-6:
+    if best > 1e-5:
         raise Violation(
             f"gradient_not_derivative:{sig}",
             f"|FD-g.d|/(|g||d|) = {['%.2e' % e for e in errs]} for steps "
@@ -124,7 +125,7 @@ def _case_gradient(spec, rec):
             f"sources {srck}; receivers {spec['problem']['rec']}; "
             f"noise {spec['problem']['noise_kind']}/"
             f"{spec['problem']['noise_shape']}")
-    if errs[0] > 1e-5 and errs[1] > errs[0]/30:
+    if errs[0] > 1e-4 and errs[1] > errs[0]/30 + 3*best:
         raise Violation(f"gradient_not_second_order:{sig}",
                         f"errors {errs} for steps {STEPS}")
     rec.cls(f"mapping={p.mapping}", f"case={p.case}", f"dir={spec['dir']}",
